@@ -394,6 +394,7 @@ func init() {
 			{"prefix-blocks", []string{"- a\n", "- a\n  - b\n"}, []int{1, 2}, ""},
 			{"merged-siblings", []string{"- a\n  - b\n  - b\n    - c\n", "- d\n"}, []int{3, 1}, ""},
 			{"format-verbs", []string{"- 100%d\n  - a%%b\n  - %s\n", "- {}\n  - %v%!\n"}, []int{3, 2}, ""},
+			{"special-names", []string{"- p ├── q\n  - <&>\"\n    - C#\n  - └── x\n", "- a\tb\n  - é日本\n"}, []int{4, 2}, ""},
 		}
 		bad := []docT{
 			{"bad-first", []string{"- a\n  -\n", "- c\n  - d\n"}, nil, ""},
